@@ -153,6 +153,7 @@ type FuncVC struct {
 	sawStarHavoc bool
 	inGo bool
 	lockOps int
+	strEqDone map[string]bool
 }
 
 type mapIter struct {
@@ -439,7 +440,15 @@ func calleeKeys(c *ssa.CallCommon) []string {
 		} else {
 			name = "interface"
 		}
-		return []string{name + "." + c.Method.Name(), "iface." + c.Method.Name()}
+		keys := []string{name + "." + c.Method.Name()}
+		if n, ok := rt.(*types.Named); ok && n.Obj().Pkg() != nil && n.Obj().Pkg().Path() == "github.com/absfs/absfs" {
+			if n.Obj().Name() == "File" || n.Obj().Name() == "Seekable" || n.Obj().Name() == "UnSeekable" {
+				keys = append(keys, "absfs.File."+c.Method.Name())
+			} else {
+				keys = append(keys, "absfs.FS."+c.Method.Name())
+			}
+		}
+		return append(keys, "iface."+c.Method.Name())
 	}
 	switch f := c.Value.(type) {
 	case *ssa.Function:
